@@ -1,8 +1,14 @@
-import ZV.Proofs.C06
+import ZV.Proofs.C06Canon
 /-!
   C06 — certificate metadata is a faithful function of the DER bytes.
   All theorems are about `parseCert` / `Cert.meta` of `ZV.Model.C06`, the model of
   `x509.ParseCertificate` that T2 ties to the Go code on every accepted certificate of the stream.
+
+  Sections: (a) every accepted input — Raw fields are sub-slices, fingerprints hash them / the whole input,
+  trailing bytes rejected, SelfSigned; (b) CT invariance on the extension LIST (filter + re-encoding);
+  (c) parser ∘ canonical encoder (`parseTbs_encTbs`, `parseCert_encCert_encTbs`, `meta_encCert`);
+  (d) CT invariance at BYTE level (`noct_invariant_bytes`, `noct_parses`, …); (e) which accepted certificates
+  are canonical encodings (`accepted_canonical_iff`) and the CT theorem for those (`noct_invariant_accepted`).
 -/
 namespace ZV.C06
 open ZV ZV.Der
@@ -132,5 +138,380 @@ theorem noct_only_ct (pre : Bytes) (exts : List Ext) (h : ∀ x ∈ exts, isCT x
 
 example : isCT ⟨[], oidPoison, true, [5, 0]⟩ = true := by decide
 example : isCT ⟨[], oidSCTList, false, [4, 2, 0, 0]⟩ = true := by decide
+
+/-! ## Fingerprints cover the whole accepted input -/
+
+/-- **The certificate fingerprints are hashes of the ENTIRE accepted input.**  Whatever byte string `bs`
+    the parser accepts, `Raw` is `bs` (all of it, nothing stripped) and FingerprintMD5 / FingerprintSHA1 /
+    FingerprintSHA256 are `md5 bs`, `sha1 bs`, `sha256 bs`. -/
+theorem fingerprints_cover_input (bs : Bytes) (c : Cert) (h : parseCert bs = .ok c) :
+    c.raw.full = bs ∧ c.raw.full.length = bs.length ∧
+    c.meta.fpMD5 = Hash.md5 bs ∧ c.meta.fpSHA1 = Hash.sha1 bs ∧ c.meta.fpSHA256 = Hash.sha256 bs := by
+  have h0 := (parseCert_layout h).1
+  simp only [Cert.meta, h0]
+  exact ⟨trivial, trivial, trivial, trivial, trivial⟩
+
+/-- the same for an input assembled as prefix ‖ DER ‖ suffix (the shape of the T2 `wrap` lines): if it is
+    accepted at all, the fingerprints hash all three parts. -/
+theorem fingerprints_cover_wrapped (p der s : Bytes) (c : Cert) (h : parseCert (p ++ der ++ s) = .ok c) :
+    c.raw.full = p ++ der ++ s ∧ c.meta.fpMD5 = Hash.md5 (p ++ der ++ s) ∧
+    c.meta.fpSHA1 = Hash.sha1 (p ++ der ++ s) ∧ c.meta.fpSHA256 = Hash.sha256 (p ++ der ++ s) := by
+  obtain ⟨a, _, b, c', d⟩ := fingerprints_cover_input _ c h
+  exact ⟨a, b, c', d⟩
+
+/-- **Trailing bytes are rejected, not dropped**: an accepted certificate followed by ANY non-empty suffix
+    (white space, zero bytes, a second certificate, …) is an error.  (Stronger than `suffix_not_dropped`.) -/
+theorem trailing_rejected (der suffix : Bytes) (c : Cert) (h : parseCert der = .ok c) (hs : suffix ≠ []) :
+    parseCert (der ++ suffix) = .err := by
+  unfold parseCert at h
+  rw [bind_ok] at h; obtain ⟨⟨ce, rest⟩, hc, h⟩ := h
+  split at h
+  · cases h
+  · rename_i hrest
+    have hre : rest = [] := by simpa using hrest
+    subst hre
+    obtain ⟨hi, _⟩ := field_some_isElem (someElem_field_nil hc)
+    unfold parseCert
+    rw [someElem_field_isElem false suffix hi, res_bind_ok]
+    have : (!suffix.isEmpty) = true := by cases suffix with
+      | nil => exact absurd rfl hs
+      | cons _ _ => rfl
+    simp only [this, if_true]
+
+/-! ## SelfSigned, byte level -/
+
+/-- `SelfSigned` ⇔ the issuer slice of the INPUT equals its subject slice ∧ the signature verifies. -/
+theorem selfsigned_bytes (bs : Bytes) (c : Cert) (h : parseCert bs = .ok c) (verified : Bool) :
+    selfSigned c.meta verified = true ↔
+      (bs.extract c.offIssuer (c.offIssuer + c.rawIssuer.length)
+        = bs.extract c.offSubject (c.offSubject + c.rawSubject.length) ∧ verified = true) := by
+  obtain ⟨_, _, h2, h3, _⟩ := raw_fields_are_subslices bs c h
+  rw [selfsigned_iff, ← h2, ← h3]
+
+/-! ## The parser on canonically encoded certificates -/
+
+/-- **`parseTbs ∘ encTbs`.**  For all field encodings that are single elements of the expected tags
+    (`wfFields`: decidable — strict-DER header, exact length, tag/class/constructed bit as `parseField` wants
+    them, version fits int64, serial minimal, unique ids valid BIT STRINGs), every list of extensions each of
+    which is one SEQUENCE element that `parseExt` decodes to itself (`wfExt`), and total size < 2^31, the TBS
+    contents `version? ‖ serial ‖ sigalg ‖ issuer ‖ validity ‖ subject ‖ spki ‖ uid1? ‖ uid2? ‖ [3]{SEQ{exts}}?`
+    are parsed back to exactly these fields, `pre` = everything before the `[3]` wrapper, and `exts`. -/
+theorem parseTbs_encTbs (f : TbsFields) (exts : List Ext) (hf : wfFields f = true)
+    (hx : exts.all wfExt = true) (hl : (encTbsBody f exts).length < 2147483648) :
+    parseTbs (encTbsBody f exts) =
+      .ok ⟨verInt f.version, encVersion f.version, elemAt f.serial, elemAt f.sigalg, elemAt f.issuer,
+           elemAt f.validity, elemAt f.subject, elemAt f.spki, encTbsPre f, exts⟩ :=
+  parseTbs_encTbsBody f exts hf (by simpa using hx) hl
+
+/-- **`parseCert ∘ encCert ∘ encTbs`**: the certificate assembled from well-formed pieces is accepted and
+    decoded to exactly those pieces. -/
+theorem parseCert_encCert_encTbs (f : TbsFields) (exts : List Ext) (sa sv : Bytes)
+    (h : wfCert f exts sa sv = true) :
+    parseCert (encCert (encTbs f exts) sa sv) =
+      .ok ⟨elemOf 0x30 (encTbs f exts ++ sa ++ sv), elemOf 0x30 (encTbsBody f exts),
+           ⟨verInt f.version, encVersion f.version, elemAt f.serial, elemAt f.sigalg, elemAt f.issuer,
+            elemAt f.validity, elemAt f.subject, elemAt f.spki, encTbsPre f, exts⟩,
+           elemAt sa, elemAt sv⟩ := by
+  obtain ⟨hf, hx, hs, hl⟩ := (wfCert_iff f exts sa sv).mp h
+  exact parseCert_encCert f exts sa sv hf hx hs hl
+
+/-- **The metadata of a canonically encoded certificate, as a function of what was encoded**: every Raw field
+    is the corresponding encoder argument, every fingerprint the hash of it, Version the encoded integer + 1,
+    the no-CT bytes the re-encoding of the encoder's own `pre` and the filtered extension list, and
+    SelfSigned ⇔ issuer encoding = subject encoding ∧ verified. -/
+theorem meta_encCert (f : TbsFields) (exts : List Ext) (sa sv : Bytes) (h : wfCert f exts sa sv = true) :
+    ∃ c, parseCert (encCert (encTbs f exts) sa sv) = .ok c ∧
+      c.raw.full = encCert (encTbs f exts) sa sv ∧ c.rawTBS = encTbs f exts ∧
+      c.rawIssuer = f.issuer ∧ c.rawSubject = f.subject ∧ c.rawSPKI = f.spki ∧
+      c.tbs.exts = exts ∧ c.tbs.pre = encTbsPre f ∧
+      c.meta.version = versionPlusOne (verInt f.version) ∧
+      c.meta.tbsFp = Hash.sha256 (encTbs f exts) ∧ c.meta.spkiFp = Hash.sha256 f.spki ∧
+      c.meta.spkiSubjectFp = Hash.sha256 (f.spki ++ f.subject) ∧
+      c.noCT = noCTBytes (encTbsPre f) exts ∧ c.meta.noCTFp = Hash.sha256 (noCTBytes (encTbsPre f) exts) ∧
+      (∀ verified, selfSigned c.meta verified = true ↔ (f.issuer = f.subject ∧ verified = true)) := by
+  refine ⟨_, parseCert_encCert_encTbs f exts sa sv h, ?_⟩
+  obtain ⟨hf, _, _, _⟩ := (wfCert_iff f exts sa sv).mp h
+  obtain ⟨_, _, _, _, hiss, _, hsub, hspki, _, _⟩ := (wfFields_iff f).mp hf
+  have e1 := isElem_full hiss
+  have e2 := isElem_full hsub
+  have e3 := isElem_full hspki
+  refine ⟨rfl, rfl, e1, e2, e3, rfl, rfl, rfl, rfl, ?_, ?_, rfl, rfl, ?_⟩
+  · show Hash.sha256 (elemAt f.spki).full = _
+    rw [e3]
+  · show Hash.sha256 ((elemAt f.spki).full ++ (elemAt f.subject).full) = _
+    rw [e3, e2]
+  · intro verified
+    rw [selfsigned_iff]
+    show ((elemAt f.issuer).full = (elemAt f.subject).full ∧ _) ↔ _
+    rw [e1, e2]
+
+/-- **Edge cases of the `[3] EXPLICIT` field** (zcrypto 51a5052 semantics), after any well-formed fields:
+    a zero-length wrapper `A3 00` is an error; a wrapper announcing content with nothing after it (`A3 02`) is an
+    error ("explicit tag has no child"); a wrapper whose content is not a SEQUENCE (`A3 02 05 00`) is NOT an error —
+    the field takes its default (no extensions), nothing is consumed (`pre` is unchanged) and the bytes are
+    ignored as trailing data; the empty SEQUENCE `A3 02 30 00` is accepted with no extensions. -/
+theorem explicit_field_edge_cases (f : TbsFields) (hf : wfFields f = true) (hl : (encTbsPre f).length < 2147483648) :
+    parseTbs (encTbsPre f ++ [0xA3, 0x00]) = .err ∧
+    parseTbs (encTbsPre f ++ [0xA3, 0x02]) = .err ∧
+    parseTbs (encTbsPre f ++ [0xA3, 0x02, 0x05, 0x00]) =
+      .ok ⟨verInt f.version, encVersion f.version, elemAt f.serial, elemAt f.sigalg, elemAt f.issuer,
+           elemAt f.validity, elemAt f.subject, elemAt f.spki, encTbsPre f, []⟩ ∧
+    parseTbs (encTbsPre f ++ [0xA3, 0x02, 0x30, 0x00]) =
+      .ok ⟨verInt f.version, encVersion f.version, elemAt f.serial, elemAt f.sigalg, elemAt f.issuer,
+           elemAt f.validity, elemAt f.subject, elemAt f.spki, encTbsPre f, []⟩ := by
+  have sw : ∀ (k : Nat) (n : UInt8) (r : Bytes), n.toNat < 128 → k ≠ 3 → startsWithout k (0xA3 :: n :: r) := by
+    intro k n r hn hk
+    refine Or.inr ⟨⟨2, true, 3, n.toNat⟩, r, ?_, ?_⟩
+    · simp [readHdr, readLen, hn]
+    · simp; omega
+  refine ⟨?_, ?_, ?_, ?_⟩
+  · rw [parseTbs_tail f _ hf hl (sw 1 0 [] (by decide) (by decide)) (sw 2 0 [] (by decide) (by decide))]
+    rfl
+  · rw [parseTbs_tail f _ hf hl (sw 1 2 [] (by decide) (by decide)) (sw 2 2 [] (by decide) (by decide))]
+    rfl
+  · rw [parseTbs_tail f _ hf hl (sw 1 2 _ (by decide) (by decide)) (sw 2 2 _ (by decide) (by decide))]
+    rfl
+  · rw [parseTbs_tail f _ hf hl (sw 1 2 _ (by decide) (by decide)) (sw 2 2 _ (by decide) (by decide))]
+    rfl
+
+/-- `Version` wraps exactly at MaxInt64 (Go's `int` addition). -/
+theorem version_wraps (c : Cert) (h : c.tbs.version = 9223372036854775807) :
+    c.meta.version = -9223372036854775808 := by
+  show versionPlusOne c.tbs.version = _
+  rw [h]; rfl
+
+/-! ## CT invariance at BYTE level -/
+
+/-- **End-to-end CT invariance.**  Take any canonically encoded certificate
+    `encCert (encTbs f exts) sa sv` and any well-formed CT extension `ct` (poison or SCT list: `isCT`), insert its
+    encoding at ANY position `i` of the extension list (also beyond the end ⇒ appended, also into the EMPTY list,
+    where the `[3]` wrapper appears in the bytes) and re-assemble the certificate.  Both byte strings are accepted
+    by `parseCert`, the parsed extension lists are `exts` and `insertAt i ct exts`, and the byte string
+    `FingerprintNoCT` hashes — hence the fingerprint — is the same for both. -/
+theorem noct_invariant_bytes (f : TbsFields) (exts : List Ext) (ct : Ext) (i : Nat) (sa sv : Bytes)
+    (h : wfCert f (insertAt i ct exts) sa sv = true) (hct : isCT ct = true) :
+    ∃ c c', parseCert (encCert (encTbs f exts) sa sv) = .ok c ∧
+      parseCert (encCert (encTbs f (insertAt i ct exts)) sa sv) = .ok c' ∧
+      c.tbs.exts = exts ∧ c'.tbs.exts = insertAt i ct exts ∧
+      c'.noCT = c.noCT ∧ c'.meta.noCTFp = c.meta.noCTFp := by
+  obtain ⟨hf, hx, hs, hl⟩ := (wfCert_iff _ _ _ _).mp h
+  have hx0 : ∀ x ∈ exts, wfExt x = true := by
+    intro x hm
+    apply hx
+    unfold insertAt
+    rw [List.mem_append, List.mem_cons]
+    rw [← List.take_append_drop i exts, List.mem_append] at hm
+    rcases hm with hm | hm
+    · exact Or.inl hm
+    · exact Or.inr (Or.inr hm)
+  have hl0 := Nat.lt_of_le_of_lt (encCert_size_mono f i ct exts sa sv) hl
+  have h0 : wfCert f exts sa sv = true := (wfCert_iff _ _ _ _).mpr ⟨hf, hx0, hs, hl0⟩
+  obtain ⟨c, pc, _, _, _, _, _, xc, _, _, _, _, _, nc, fc, _⟩ := meta_encCert f exts sa sv h0
+  obtain ⟨c', pc', _, _, _, _, _, xc', _, _, _, _, _, nc', fc', _⟩ := meta_encCert f (insertAt i ct exts) sa sv h
+  have hn := noct_invariant (encTbsPre f) exts ct hct i
+  exact ⟨c, c', pc, pc', xc, xc', by rw [nc, nc', hn.1], by rw [fc, fc', hn.1]⟩
+
+/-- the `wfCert` hypothesis of `noct_invariant_bytes`, from the base certificate: it suffices that the base is
+    well-formed, the CT extension is, and the LARGER certificate stays below 2^31 octets. -/
+theorem wfCert_insertAt (f : TbsFields) (exts : List Ext) (ct : Ext) (i : Nat) (sa sv : Bytes)
+    (h : wfCert f exts sa sv = true) (hw : wfExt ct = true)
+    (hl : (encTbs f (insertAt i ct exts) ++ sa ++ sv).length < 2147483648) :
+    wfCert f (insertAt i ct exts) sa sv = true := by
+  obtain ⟨hf, hx, hs, _⟩ := (wfCert_iff _ _ _ _).mp h
+  refine (wfCert_iff _ _ _ _).mpr ⟨hf, ?_, hs, hl⟩
+  intro x hm
+  unfold insertAt at hm
+  rw [List.mem_append, List.mem_cons] at hm
+  rcases hm with hm | hm | hm
+  · exact hx x (List.mem_of_mem_take hm)
+  · rw [hm]; exact hw
+  · exact hx x (List.mem_of_mem_drop hm)
+
+/-- **What the no-CT bytes are.**  For a canonically encoded certificate they are the canonical TBS encoding
+    of the same fields with the CT extensions removed and the `[3]` field always written:
+    `encTbs {f with wrapEmpty := true} (exts.filter notCT)`.  So they equal `encTbs f (exts.filter notCT)` — the TBS
+    of the CT-free twin — whenever a non-CT extension remains or `f` writes the empty field anyway, and they end
+    in `A3 02 30 00` when nothing remains (the one case where a twin encoded WITHOUT the field differs). -/
+theorem noct_is_encTbs_filtered (f : TbsFields) (exts : List Ext) :
+    noCTBytes (encTbsPre f) exts = encTbs { f with wrapEmpty := true } (exts.filter notCT) ∧
+    ((exts.filter notCT ≠ [] ∨ f.wrapEmpty = true) → noCTBytes (encTbsPre f) exts = encTbs f (exts.filter notCT)) ∧
+    (exts.filter notCT = [] → noCTBytes (encTbsPre f) exts = writeTLV 0x30 (encTbsPre f ++ [0xA3, 0x02, 0x30, 0x00])) := by
+  refine ⟨?_, ?_, ?_⟩
+  · simp only [noCTBytes, encTbs, encTbsBody, encExtsField_wraps (Or.inr rfl : wraps true _)]
+    rfl
+  · intro hne
+    simp only [noCTBytes, encTbs, encTbsBody, encExtsField_wraps (hne : wraps _ _)]
+  · intro he
+    simp [noCTBytes, he, extsFlat, writeTLV, encLen]
+
+/-- **The no-CT bytes are themselves a TBS**: a SEQUENCE whose contents `parseTbs` accepts, decoding to the
+    SAME fields and `pre`, and to exactly the extension list with the CT extensions removed (`[]` included, read
+    back from `A3 02 30 00`).  Hence re-deriving the no-CT bytes from them gives the same bytes (idempotence). -/
+theorem noct_parses (f : TbsFields) (exts : List Ext) (hf : wfFields f = true) (hx : exts.all wfExt = true)
+    (hl : (noCTBytes (encTbsPre f) exts).length < 2147483648) :
+    ∃ body, noCTBytes (encTbsPre f) exts = writeTLV 0x30 body ∧
+      parseTbs body = .ok ⟨verInt f.version, encVersion f.version, elemAt f.serial, elemAt f.sigalg,
+        elemAt f.issuer, elemAt f.validity, elemAt f.subject, elemAt f.spki, encTbsPre f, exts.filter notCT⟩ ∧
+      noCTBytes (encTbsPre f) (exts.filter notCT) = noCTBytes (encTbsPre f) exts := by
+  refine ⟨encTbsPre f ++ writeTLV 0xA3 (writeTLV 0x30 (extsFlat (exts.filter notCT))), rfl, ?_, noct_remove _ _⟩
+  apply parseTbs_wrapped f _ hf
+  · intro x hm
+    have hx' : ∀ x ∈ exts, wfExt x = true := by simpa using hx
+    exact hx' x (List.mem_filter.mp hm).1
+  · have := length_le_writeTLV 0x30 (encTbsPre f ++ writeTLV 0xA3 (writeTLV 0x30 (extsFlat (exts.filter notCT))))
+    unfold noCTBytes at hl
+    omega
+
+/-- so a canonically encoded certificate without CT extensions whose `[3]` field is present (at least one
+    extension, or the empty field `A3 02 30 00` as `CreateCertificate` writes it) has
+    `FingerprintNoCT = sha256 RawTBSCertificate`. -/
+theorem noct_eq_tbs (f : TbsFields) (exts : List Ext) (sa sv : Bytes) (h : wfCert f exts sa sv = true)
+    (hne : exts ≠ [] ∨ f.wrapEmpty = true) (hno : ∀ x ∈ exts, isCT x = false) :
+    ∃ c, parseCert (encCert (encTbs f exts) sa sv) = .ok c ∧ c.noCT = c.rawTBS ∧ c.meta.noCTFp = c.meta.tbsFp := by
+  obtain ⟨c, pc, _, rt, _, _, _, _, _, _, tf, _, _, nc, fc, _⟩ := meta_encCert f exts sa sv h
+  have hfil : exts.filter notCT = exts := by
+    rw [List.filter_eq_self]; intro x hx; simp [notCT, hno x hx]
+  have := (noct_is_encTbs_filtered f exts).2.1 (by rw [hfil]; exact hne)
+  rw [hfil] at this
+  exact ⟨c, pc, by rw [nc, rt, this], by rw [fc, tf, this]⟩
+
+/-- a canonically written CT extension (any criticality, any value below the size bound) is a well-formed CT
+    extension — the `ct` of `noct_invariant_bytes` ranges over all of these (and over every other encoding
+    `parseExt` accepts with one of the two OIDs). -/
+theorem ct_ext_wf (critical : Bool) (value : Bytes) (hl : value.length < 2147483000) :
+    wfExt (mkExt oidPoison critical value) = true ∧ isCT (mkExt oidPoison critical value) = true ∧
+    wfExt (mkExt oidSCTList critical value) = true ∧ isCT (mkExt oidSCTList critical value) = true := by
+  have b1 := (encLen_length value.length).2
+  have hb : ∀ oid : Bytes, oid.length = 10 → (extBody oid critical value).length < 2147483648 := by
+    intro oid ho
+    have b0 := (encLen_length 10).2
+    have b2 := (encLen_length 1).2
+    unfold extBody
+    cases critical <;>
+    · simp only [List.length_append, writeTLV_length, if_true, Bool.false_eq_true, if_false, List.length_nil,
+        List.length_singleton, ho]
+      omega
+  exact ⟨wfExt_mkExt _ _ _ validOID_poison (hb _ rfl), isCT_mkExt_poison _ _,
+         wfExt_mkExt _ _ _ validOID_sctList (hb _ rfl), isCT_mkExt_sctList _ _⟩
+
+/-! ## Which accepted certificates are canonically encoded -/
+
+/-- **The two outer headers of every accepted certificate are canonical DER**: the input is `30 len body` and
+    RawTBSCertificate is `30 len body` with the minimal length field `encLen` writes (no alternative length
+    encodings are accepted), both bodies shorter than 2^31. -/
+theorem accepted_outer_canonical (bs : Bytes) (c : Cert) (h : parseCert bs = .ok c) :
+    bs = writeTLV 0x30 c.raw.body ∧ c.rawTBS = writeTLV 0x30 c.tbsE.body ∧
+    c.raw.body.length < 2147483648 ∧ c.tbsE.body.length < 2147483648 := by
+  unfold parseCert at h
+  rw [bind_ok] at h; obtain ⟨⟨ce, rest⟩, hc, h⟩ := h
+  split at h
+  · cases h
+  · rename_i hrest
+    rw [bind_ok] at h; obtain ⟨⟨tbsE, r1⟩, htbsE, h⟩ := h
+    rw [bind_ok] at h; obtain ⟨tbs, _, h⟩ := h
+    rw [bind_ok] at h; obtain ⟨⟨sa, r2⟩, _, h⟩ := h
+    rw [bind_ok] at h; obtain ⟨⟨sv, r3⟩, _, h⟩ := h
+    rw [bind_ok] at h; obtain ⟨_, _, h⟩ := h
+    simp only [Res.ok.injEq] at h
+    subst h
+    have hre : rest = [] := by simpa using hrest
+    subst hre
+    obtain ⟨c1, ci, ca⟩ := someElem_inv hc
+    obtain ⟨_, ti, ta⟩ := someElem_inv htbsE
+    obtain ⟨cc, cl⟩ := seq_canonical ci
+    obtain ⟨tc, tl⟩ := seq_canonical ti
+    rw [ca] at cc cl
+    rw [ta] at tc tl
+    simp only [List.append_nil] at c1
+    exact ⟨by rw [c1]; exact cc, tc, cl, tl⟩
+
+/-- **Exactly the accepted certificates of canonical shape are images of the encoder.**  `bs` is accepted with
+    `Cert.shapeOK` (decidable on the parse result: no trailing elements after the signature, TBS contents = the
+    consumed fields followed by the canonical `[3]` field of the parsed extension list, `[0]` wrapper of
+    consistent length) **iff** `bs = encCert (encTbs f exts) sigalg sig` for arguments satisfying `wfCert`. -/
+theorem accepted_canonical_iff (bs : Bytes) :
+    (∃ c, parseCert bs = .ok c ∧ c.shapeOK = true) ↔
+    (∃ f exts sa sv, wfCert f exts sa sv = true ∧ bs = encCert (encTbs f exts) sa sv) := by
+  constructor
+  · rintro ⟨c, h, hs⟩
+    obtain ⟨f, hw, hb, _⟩ := accepted_is_encoded h hs
+    exact ⟨f, _, _, _, hw, hb⟩
+  · rintro ⟨f, exts, sa, sv, hw, hb⟩
+    rw [hb]
+    exact shapeOK_encCert f exts sa sv hw
+
+/-- **CT invariance for accepted certificates.**  Let `bs` be ANY accepted input of canonical shape, with parse
+    result `c`.  Then `bs` is `encCert (encTbs f c.exts) c.sigalg c.sigval` for some field encodings `f`, and for
+    every well-formed CT extension `ct` and position `i` the re-assembled certificate with `ct` inserted at `i`
+    (size still < 2^31) is accepted, has extension list `insertAt i ct c.exts`, the same Raw issuer / subject /
+    SPKI, and the SAME no-CT bytes and FingerprintNoCT as `bs`. -/
+theorem noct_invariant_accepted (bs : Bytes) (c : Cert) (h : parseCert bs = .ok c) (hs : c.shapeOK = true)
+    (ct : Ext) (i : Nat) (hw : wfExt ct = true) (hct : isCT ct = true) :
+    ∃ f, bs = encCert (encTbs f c.tbs.exts) c.sigalg.full c.sigval.full ∧
+      ((encTbs f (insertAt i ct c.tbs.exts) ++ c.sigalg.full ++ c.sigval.full).length < 2147483648 →
+        ∃ c', parseCert (encCert (encTbs f (insertAt i ct c.tbs.exts)) c.sigalg.full c.sigval.full) = .ok c' ∧
+          c'.tbs.exts = insertAt i ct c.tbs.exts ∧
+          c'.rawIssuer = c.rawIssuer ∧ c'.rawSubject = c.rawSubject ∧ c'.rawSPKI = c.rawSPKI ∧
+          c'.noCT = c.noCT ∧ c'.meta.noCTFp = c.meta.noCTFp) := by
+  obtain ⟨f, hwf, hb, hpre, _, _, hi, _, hsu, hsp⟩ := accepted_is_encoded h hs
+  refine ⟨f, hb, ?_⟩
+  intro hl
+  have hwf' := wfCert_insertAt f c.tbs.exts ct i _ _ hwf hw hl
+  obtain ⟨c', pc', _, _, ri, rs, rp, xc', _, _, _, _, _, nc', fc', _⟩ :=
+    meta_encCert f (insertAt i ct c.tbs.exts) _ _ hwf'
+  have hn := noct_invariant (encTbsPre f) c.tbs.exts ct hct i
+  have e1 : c.noCT = noCTBytes (encTbsPre f) c.tbs.exts := by rw [Cert.noCT, hpre]
+  have e2 : c.meta.noCTFp = Hash.sha256 (noCTBytes (encTbsPre f) c.tbs.exts) := by
+    show Hash.sha256 (noCTBytes c.tbs.pre c.tbs.exts) = _
+    rw [hpre]
+  refine ⟨c', pc', xc', ?_, ?_, ?_, by rw [nc', e1, hn.1], by rw [fc', e2, hn.1]⟩
+  · rw [ri, hi]; rfl
+  · rw [rs, hsu]; rfl
+  · rw [rp, hsp]; rfl
+
+/-! ### the hypotheses are satisfiable -/
+
+/-- a small v3 certificate skeleton: version 2, serial 1, empty SEQUENCEs for the unparsed fields, a subject
+    unique id, one basicConstraints extension -/
+def exFields : TbsFields :=
+  { version := some [0x02, 0x01, 0x02], serial := [0x02, 0x01, 0x01], sigalg := [0x30, 0x00],
+    issuer := [0x30, 0x00], validity := [0x30, 0x00], subject := [0x30, 0x00], spki := [0x30, 0x00],
+    issuerUID := none, subjectUID := some [0x82, 0x02, 0x00, 0x55], wrapEmpty := false }
+def exBC : Ext := mkExt [0x55, 0x1d, 0x13] true [0x30, 0x00]
+def exPoison : Ext := mkExt oidPoison true [0x05, 0x00]
+def exSCT : Ext := mkExt oidSCTList false [0x04, 0x02, 0x00, 0x00]
+
+example : wfCert exFields [exBC] [0x30, 0x00] [0x03, 0x02, 0x00, 0x01] = true := by decide
+example : wfCert exFields (insertAt 0 exPoison [exBC]) [0x30, 0x00] [0x03, 0x02, 0x00, 0x01] = true := by decide
+example : wfCert exFields (insertAt 5 exSCT [exBC]) [0x30, 0x00] [0x03, 0x02, 0x00, 0x01] = true := by decide
+/-- the empty extension list: the `[3]` wrapper appears only in the variant -/
+example : wfCert exFields (insertAt 0 exPoison []) [0x30, 0x00] [0x03, 0x02, 0x00, 0x01] = true := by decide
+example : encExtsField false [] = [] ∧ encExtsField false (insertAt 0 exPoison []) ≠ [] := by decide
+/-- … and the variant where the base certificate carries the empty field `A3 02 30 00` -/
+example : wfCert { exFields with wrapEmpty := true } (insertAt 0 exSCT []) [0x30, 0x00] [0x03, 0x02, 0x00, 0x01] = true ∧
+    encExtsField true [] = [0xA3, 0x02, 0x30, 0x00] := by decide
+example : isCT exPoison = true ∧ isCT exSCT = true ∧ isCT exBC = false := by decide
+example : wfFields exFields = true ∧ [exBC].all wfExt = true ∧ (encTbsBody exFields [exBC]).length < 2147483648 := by
+  decide
+example : ∃ c, parseCert (encCert (encTbs exFields [exBC]) [0x30, 0x00] [0x03, 0x02, 0x00, 0x01]) = .ok c :=
+  ⟨_, parseCert_encCert_encTbs _ _ _ _ (by decide)⟩
+example : (noCTBytes (encTbsPre exFields) [exPoison, exBC, exSCT]).length < 2147483648 := by decide
+example : [exPoison, exBC, exSCT].filter notCT = [exBC] ∧ [exPoison, exSCT].filter notCT = [] := by decide
+example : ∃ c, parseCert (encCert (encTbs exFields [exBC]) [0x30, 0x00] [0x03, 0x02, 0x00, 0x01]) = .ok c ∧
+    c.shapeOK = true := shapeOK_encCert _ _ _ _ (by decide)
+example : wfExt exPoison = true ∧ wfExt exSCT = true := by decide
+example : (encTbsPre exFields).length < 2147483648 := by decide
+example : [exBC] ≠ [] ∧ (∀ x ∈ [exBC], isCT x = false) := by decide
+example : ([0x05, 0x00] : Bytes).length < 2147483000 := by decide
+example : (encTbs exFields (insertAt 0 exPoison [exBC]) ++ [0x30, 0x00] ++ [0x03, 0x02, 0x00, 0x01]).length < 2147483648 := by
+  decide
+/-- the byte-level CT theorem, instantiated: no extensions at all vs. a lone poison extension -/
+example : ∃ c c', parseCert (encCert (encTbs exFields []) [0x30, 0x00] [0x03, 0x02, 0x00, 0x01]) = .ok c ∧
+    parseCert (encCert (encTbs exFields (insertAt 0 exPoison [])) [0x30, 0x00] [0x03, 0x02, 0x00, 0x01]) = .ok c' ∧
+    c'.noCT = c.noCT := by
+  obtain ⟨c, c', h1, h2, _, _, h3, _⟩ :=
+    noct_invariant_bytes exFields [] exPoison 0 [0x30, 0x00] [0x03, 0x02, 0x00, 0x01] (by decide) (by decide)
+  exact ⟨c, c', h1, h2, h3⟩
+example : ([0x30, 0x00] : Bytes) ≠ [] := by decide
 
 end ZV.C06
